@@ -114,11 +114,11 @@ Proof.
   repeat (apply andb_true_iff in Hsp; destruct Hsp as [?H Hsp]).
   repeat match goal with H : negb _ = true |- _ => apply negb_true_iff in H end.
   unfold normal_command.
-  set (s0 := if mem_name (upper nm) write_commands then log_aof_in s dbi (FBulk nm :: rest) else s).
-  assert (Hd : get_db s0 dbi = get_db s dbi) by (unfold s0; destruct (mem_name (upper nm) write_commands); [unfold log_aof_in; destruct (same_db _ _)|]; reflexivity).
-  assert (Hc : s_conns s0 = s_conns s) by (unfold s0; destruct (mem_name (upper nm) write_commands); [unfold log_aof_in; destruct (same_db _ _)|]; reflexivity).
-  assert (Hp : s_password s0 = s_password s) by (unfold s0; destruct (mem_name (upper nm) write_commands); [unfold log_aof_in; destruct (same_db _ _)|]; reflexivity).
-  assert (Hl : s_dbs s0 = s_dbs s) by (unfold s0; destruct (mem_name (upper nm) write_commands); [unfold log_aof_in; destruct (same_db _ _)|]; reflexivity).
+  set (s0 := if logs_before (upper nm) (FBulk nm :: rest) then log_aof_in s dbi (FBulk nm :: rest) else s).
+  assert (Hd : get_db s0 dbi = get_db s dbi) by (unfold s0; destruct (logs_before (upper nm) (FBulk nm :: rest)); [unfold log_aof_in; destruct (same_db _ _)|]; reflexivity).
+  assert (Hc : s_conns s0 = s_conns s) by (unfold s0; destruct (logs_before (upper nm) (FBulk nm :: rest)); [unfold log_aof_in; destruct (same_db _ _)|]; reflexivity).
+  assert (Hp : s_password s0 = s_password s) by (unfold s0; destruct (logs_before (upper nm) (FBulk nm :: rest)); [unfold log_aof_in; destruct (same_db _ _)|]; reflexivity).
+  assert (Hl : s_dbs s0 = s_dbs s) by (unfold s0; destruct (logs_before (upper nm) (FBulk nm :: rest)); [unfold log_aof_in; destruct (same_db _ _)|]; reflexivity).
   rewrite H, H0, H1, H2, H3, H4, H5, H6. rewrite Hd, He.
   eexists. split; [reflexivity|]. cbn [set_trk set_db s_conns s_password s_dbs]. rewrite Hl. repeat split; assumption.
 Qed.
@@ -421,11 +421,11 @@ Proof.
   repeat (apply andb_true_iff in Hsp; destruct Hsp as [?H Hsp]).
   repeat match goal with H : negb _ = true |- _ => apply negb_true_iff in H end.
   unfold bnormal. rewrite Hb1, Hb2. unfold normal_command.
-  set (s0 := if mem_name (upper nm) write_commands then log_aof_in s dbi (FBulk nm :: rest) else s).
-  assert (Hd : get_db s0 dbi = get_db s dbi) by (unfold s0; destruct (mem_name (upper nm) write_commands); [unfold log_aof_in; destruct (same_db _ _)|]; reflexivity).
-  assert (Hc : s_conns s0 = s_conns s) by (unfold s0; destruct (mem_name (upper nm) write_commands); [unfold log_aof_in; destruct (same_db _ _)|]; reflexivity).
-  assert (Hp : s_password s0 = s_password s) by (unfold s0; destruct (mem_name (upper nm) write_commands); [unfold log_aof_in; destruct (same_db _ _)|]; reflexivity).
-  assert (Hl : s_dbs s0 = s_dbs s) by (unfold s0; destruct (mem_name (upper nm) write_commands); [unfold log_aof_in; destruct (same_db _ _)|]; reflexivity).
+  set (s0 := if logs_before (upper nm) (FBulk nm :: rest) then log_aof_in s dbi (FBulk nm :: rest) else s).
+  assert (Hd : get_db s0 dbi = get_db s dbi) by (unfold s0; destruct (logs_before (upper nm) (FBulk nm :: rest)); [unfold log_aof_in; destruct (same_db _ _)|]; reflexivity).
+  assert (Hc : s_conns s0 = s_conns s) by (unfold s0; destruct (logs_before (upper nm) (FBulk nm :: rest)); [unfold log_aof_in; destruct (same_db _ _)|]; reflexivity).
+  assert (Hp : s_password s0 = s_password s) by (unfold s0; destruct (logs_before (upper nm) (FBulk nm :: rest)); [unfold log_aof_in; destruct (same_db _ _)|]; reflexivity).
+  assert (Hl : s_dbs s0 = s_dbs s) by (unfold s0; destruct (logs_before (upper nm) (FBulk nm :: rest)); [unfold log_aof_in; destruct (same_db _ _)|]; reflexivity).
   rewrite H, H0, H1, H2, H3, H4, H5, H6. rewrite Hd, He.
   eexists. exists s0. split; [|repeat split; assumption].
   unfold notify_after_push. rewrite Hpn. reflexivity.
@@ -437,7 +437,7 @@ Lemma nc_ping now s c dbi nm rest o r s' :
   s_dbs s' = s_dbs s /\ s_conns s' = s_conns s /\ s_password s' = s_password s.
 Proof.
   intros Hp H. unfold normal_command in H. rewrite Hp in H.
-  destruct (mem_name (upper nm) write_commands); injection H as _ <-; repeat split; reflexivity.
+  destruct (logs_before (upper nm) (FBulk nm :: rest)); injection H as _ <-; repeat split; reflexivity.
 Qed.
 Lemma nc_select now s c dbi nm rest o r s' :
   beq (upper nm) (bs "PING") = false -> beq (upper nm) (bs "ECHO") = false -> beq (upper nm) (bs "SELECT") = true ->
@@ -447,10 +447,10 @@ Lemma nc_select now s c dbi nm rest o r s' :
     exists cn, zlookup c' (s_conns s) = Some cn /\ c_queue cn' = c_queue cn /\ (c_db cn' = c_db cn \/ 0 <= c_db cn' < 16).
 Proof.
   intros H1 H2 H3 H. unfold normal_command in H. rewrite H1, H2, H3 in H.
-  set (s0 := if mem_name (upper nm) write_commands then log_aof_in s dbi (FBulk nm :: rest) else s) in *.
-  assert (Hc : s_conns s0 = s_conns s) by (unfold s0; destruct (mem_name (upper nm) write_commands); [unfold log_aof_in; destruct (same_db _ _)|]; reflexivity).
-  assert (Hp : s_password s0 = s_password s) by (unfold s0; destruct (mem_name (upper nm) write_commands); [unfold log_aof_in; destruct (same_db _ _)|]; reflexivity).
-  assert (Hl : s_dbs s0 = s_dbs s) by (unfold s0; destruct (mem_name (upper nm) write_commands); [unfold log_aof_in; destruct (same_db _ _)|]; reflexivity).
+  set (s0 := if logs_before (upper nm) (FBulk nm :: rest) then log_aof_in s dbi (FBulk nm :: rest) else s) in *.
+  assert (Hc : s_conns s0 = s_conns s) by (unfold s0; destruct (logs_before (upper nm) (FBulk nm :: rest)); [unfold log_aof_in; destruct (same_db _ _)|]; reflexivity).
+  assert (Hp : s_password s0 = s_password s) by (unfold s0; destruct (logs_before (upper nm) (FBulk nm :: rest)); [unfold log_aof_in; destruct (same_db _ _)|]; reflexivity).
+  assert (Hl : s_dbs s0 = s_dbs s) by (unfold s0; destruct (logs_before (upper nm) (FBulk nm :: rest)); [unfold log_aof_in; destruct (same_db _ _)|]; reflexivity).
   assert (Same : forall r0, (r0, s0) = (r, s') -> s_dbs s' = s_dbs s /\ s_password s' = s_password s /\
             forall c' cn', zlookup c' (s_conns s') = Some cn' ->
               exists cn, zlookup c' (s_conns s) = Some cn /\ c_queue cn' = c_queue cn /\ (c_db cn' = c_db cn \/ 0 <= c_db cn' < 16)).
